@@ -59,6 +59,18 @@ Matches(g, st) ==
 \* observer bits: every bit that is present must be TRUE (an observer that does not apply logs an empty record)
 AllTrue(r) == \A f \in DOMAIN r : r[f] \in BOOLEAN => r[f]
 
+\* C02 / C03: the polynomial spaces the grid declares are the ones the specification derives from its tensors, and the
+\* observer found every monomial (mode, affine function) of them integrated / reproduced exactly
+TensorsOf(g) == IF g.fam = "sequence" THEN (IF g.pts # {} THEN g.pts ELSE g.need) ELSE g.tens
+QBits == {"q_monomials", "q_modes", "q_wsum"}
+IBits == {"i_monomials", "i_modes", "i_affine", "i_wsum1", "i_evaluate"}
+ExactOK(g, ex) ==
+    /\ Req(<<"obs-exact-qspace", g.rule>>, Has(ex, "qspace") => Range(ex.qspace) = PolySpace(g.fam, g.rule, TensorsOf(g), g.dims, FALSE))
+    /\ Req(<<"obs-exact-ispace", g.rule>>, Has(ex, "ispace") => Range(ex.ispace) = PolySpace(g.fam, g.rule, TensorsOf(g), g.dims, TRUE))
+    /\ Req(<<"obs-exact-q", {f \in DOMAIN ex \cap QBits : ex[f] = FALSE}, g.rule>>, \A f \in DOMAIN ex \cap QBits : ex[f])
+    /\ Req(<<"obs-exact-i", {f \in DOMAIN ex \cap IBits : ex[f] = FALSE}, g.rule>>, \A f \in DOMAIN ex \cap IBits : ex[f])
+    /\ Req("obs-exact-exception", ~Has(ex, "exception"))
+
 \* C01 applies to local polynomial grids only when every loaded point has all of its parents loaded
 NodalRequired(g) == g.fam # "localp" \/ \A p \in g.pts : AllParents(g, p) \subseteq g.pts
 ObsOKFor(g, obs) ==
@@ -66,6 +78,7 @@ ObsOKFor(g, obs) ==
             => (obs.nodal.evaluate /\ obs.nodal.batch /\ obs.nodal.fast))
     /\ Req(<<"obs-routes", IF Has(obs, "routes") THEN {f \in DOMAIN obs.routes : obs.routes[f] = FALSE} ELSE {}>>, Has(obs, "routes") => AllTrue(obs.routes))
     /\ Req(<<"obs-rt", IF Has(obs, "rt") THEN {f \in DOMAIN obs.rt : obs.rt[f] = FALSE} ELSE {}>>, Has(obs, "rt") => AllTrue(obs.rt))
+    /\ (Has(obs, "exact") /\ ~IsEmpty(g)) => ExactOK(g, obs.exact)
 
 \* C08: once limits are stored, no needed point lies, in a limited dimension, on a level above the limit.
 \* Points loaded before the limits were (re)set may already exceed them; their descendants in OTHER directions
@@ -108,7 +121,16 @@ MakeArgs == [fam |-> Ev.a.fam, dims |-> Ev.a.dims, outs |-> Ev.a.outs, depth |->
              order |-> IF Has(Ev.a, "order") THEN Ev.a.order ELSE -1,
              alpha |-> IF Has(Ev.a, "alpha") THEN Ev.a.alpha ELSE 0, beta |-> IF Has(Ev.a, "beta") THEN Ev.a.beta ELSE 0]
 
-TMake == IsEvent("make") /\ Commit(Ev.o, Make(G(Ev.o), MakeArgs)) /\ Unch
+\* Global grids with non-nested rules number their points by first appearance of a node: the point sets are an
+\* observation, the tensors (hence the declared polynomial spaces) are computed
+TMake == /\ IsEvent("make")
+         /\ IF Ev.a.fam = "global" /\ Ev.a.rule \notin NestedGlobalRules /\ Ev.r = "ok"
+            THEN LET a == MakeArgs
+                     T == SelectTensors(a.fam, a.rule, a.dims, a.depth, a.type, a.aw, a.ll)
+                     P == Range(StOf(Ev.o).need) \cup Range(StOf(Ev.o).pts)
+                 IN Commit(Ev.o, Ok(Fresh(a.fam, a.rule, a.order, a.dims, a.outs, P, T, a.ll, a.alpha, a.beta)))
+            ELSE Commit(Ev.o, Make(G(Ev.o), MakeArgs))
+         /\ Unch
 TLoad == /\ IsEvent("load")
          /\ IF Ev.r = "skipped" THEN Commit(Ev.o, [g |-> G(Ev.o), r |-> "skipped"]) /\ G(Ev.o).pts = {} /\ G(Ev.o).need = {}
             ELSE Commit(Ev.o, Load(G(Ev.o), Ev.a.epoch))
